@@ -4,7 +4,7 @@
    passes / spec_cell are the declarative filter conjunction and the group-by sum (Proofs/C11.v, Model/C11.v). *)
 From Coq Require Import ZArith List Bool QArith.
 Import ListNotations.
-From SCMO Require Import Model.C11 Proofs.C11 Proofs.C11_table Proofs.C11_keys.
+From SCMO Require Import Model.C11 Gen.GenCountFilter Proofs.C11 Proofs.C11_table Proofs.C11_keys Proofs.C11_gen.
 Open Scope Z_scope.
 
 (* a read is counted iff it passes every selected filter; the conjunction [passes] is stated without any order *)
@@ -142,6 +142,54 @@ Theorem C11_specb_sound : forall o reads t,
   count_table o reads = Ok t -> specb o reads (Some (filter nonzero t)) = true.
 Proof. exact specb_sound. Qed.
 Print Assumptions C11_specb_sound.
+
+(* ---- T: the definitions regenerated from the CURRENT source on every run (Gen/GenCountFilter.v) ---- *)
+(* the ordered guard chain of read_should_be_counted, as the source states it now, is the model's filter ... *)
+Theorem C11_source_filter : forall o r, gen_should_count o r = should_count o r.
+Proof. exact gen_should_count_eq. Qed.
+Print Assumptions C11_source_filter.
+
+(* ... so C11_iff is a statement about that chain *)
+Theorem C11_source_iff : forall o r b, gen_should_count o r = Ok b -> (b = true <-> passes o r).
+Proof. exact gen_iff. Qed.
+Print Assumptions C11_source_iff.
+
+(* countToAdd of assignReads (0.5 condition, r1only/r2only branch, multimapping division) is the model's weight *)
+Theorem C11_source_weight : forall o r, gen_weight o r = weight o r.
+Proof. exact gen_weight_eq. Qed.
+Print Assumptions C11_source_weight.
+
+Theorem C11_source_pair_weight : forall o r1 r2 w1 w2,
+  paired r1 = true -> paired r2 = true -> mate_unmapped r1 = false -> mate_unmapped r2 = false ->
+  o_r1only o = false -> o_r2only o = false -> o_no_divide o = false -> o_div_multi o = false ->
+  gen_weight o r1 = Ok w1 -> gen_weight o r2 = Ok w2 -> (w1 + w2 == 1)%Q.
+Proof. exact gen_pair_weight. Qed.
+Print Assumptions C11_source_pair_weight.
+
+(* a selected mate weighs 1 whatever doNotDivideFragments says (the option record of THIS call decides) *)
+Theorem C11_source_selected_mate : forall o r w,
+  o_r1only o = true \/ o_r2only o = true -> o_div_multi o = false -> gen_weight o r = Ok w -> (w == 1)%Q.
+Proof. exact gen_selected_mate_weight. Qed.
+Print Assumptions C11_source_selected_mate.
+
+(* the -byValue auto-append test of create_count_table is a membership test on the parsed tag list *)
+Theorem C11_source_autoappend : forall o,
+  prep o = match o_jtags o with
+           | Some l => (true, if gen_autoappend o l
+                              then l ++ match o_byvalue o with Some b => [b] | None => [] end else l)
+           | None => (false, match o_ftags o with Some l => l | None => [] end)
+           end.
+Proof. exact gen_prep. Qed.
+Print Assumptions C11_source_autoappend.
+
+(* no state is carried from one call to the next: the module assigns no modelled option attribute of args
+   (gen_args_written is collected from the source), and the k-th table of a history of calls on one namespace is
+   the table of the options requested for that call alone *)
+Theorem C11_stateless :
+  forallb (fun n => negb (mem n gen_args_modelled)) gen_args_written = true /\
+  forall reads steps ns, history ns steps reads = map (fun o => count_table o reads) (requested ns steps).
+Proof. exact (conj args_written_ok history_stateless). Qed.
+Print Assumptions C11_stateless.
 
 (* non-vacuity: a proper pair + an unmapped record + a duplicate; --dedup --no_indels, joined tags chrom,RC *)
 Example C11_example :
